@@ -15,6 +15,7 @@ def hasError (ds : List Diag) : Prop := ∃ d ∈ ds, d.kind = .error
 
 def HasTy (E : Prop) : VTy → Val → Prop
   | .tok, .tok _ => True
+  | .dtok, .tok t => t = "in" ∨ t = "out" ∨ t = "inout"
   | .loc, .loc _ => True
   | .str, .str _ => True
   | .recovery, .recovery _ _ => True
@@ -44,6 +45,8 @@ def HasTy (E : Prop) : VTy → Val → Prop
   | _, _ => False
 
 theorem hasTy_tok (E : Prop) (v : Val) : HasTy E .tok v ↔ ∃ x, v = .tok x := by
+  cases v <;> simp [HasTy]
+theorem hasTy_dtok (E : Prop) (v : Val) : HasTy E .dtok v ↔ ∃ x, v = .tok x ∧ (x = "in" ∨ x = "out" ∨ x = "inout") := by
   cases v <;> simp [HasTy]
 theorem hasTy_loc (E : Prop) (v : Val) : HasTy E .loc v ↔ ∃ x, v = .loc x := by
   cases v <;> simp [HasTy]
@@ -147,8 +150,9 @@ theorem ArgsTyped.get {E : Prop} : ∀ {ts : List ATy} {as : List ArgV} {i : Nat
 
 /-! ### computations that do not touch the diagnostics -/
 
-/-- allowed ways for an action to stop: anything but a wrong shape or an inconsistent table -/
-def OkKind (p : Panic) : Prop := p.kind ≠ .shape ∧ p.kind ≠ .table
+/-- allowed ways for an action to stop: anything but a wrong shape, an inconsistent table or the
+    `unreachable!()` of `Direction` (what is left is `bounds`, excluded separately) -/
+def OkKind (p : Panic) : Prop := p.kind ≠ .shape ∧ p.kind ≠ .table ∧ p.kind ≠ .lexical
 
 /-- `x` returns a value satisfying `P` and leaves the diagnostics alone, or stops in an allowed way -/
 def Pur {α} (env : Env) (x : M α) (P : α → Prop) : Prop :=
@@ -160,8 +164,8 @@ variable {env : Env}
 
 theorem Pur.pure {α} {P : α → Prop} (a : α) (h : P a) : Pur env (pure a : M α) P := fun _ => ⟨rfl, h⟩
 
-theorem Pur.bad {α} {P : α → Prop} (k : PanicKind) (m : String) (h1 : k ≠ .shape) (h2 : k ≠ .table) :
-    Pur env (bad k m : M α) P := fun _ => ⟨h1, h2⟩
+theorem Pur.bad {α} {P : α → Prop} (k : PanicKind) (m : String) (h1 : k ≠ .shape) (h2 : k ≠ .table) (h3 : k ≠ .lexical) :
+    Pur env (bad k m : M α) P := fun _ => ⟨h1, h2, h3⟩
 
 theorem Pur.bind {α β} {P : α → Prop} {Q : β → Prop} {x : M α} {f : α → M β}
     (hx : Pur env x P) (hf : ∀ a, P a → Pur env (f a) Q) : Pur env (x >>= f) Q := by
